@@ -144,7 +144,12 @@ def _begin(name: str, kw: t.Mapping, rid: t.Optional[int] = None):
 def _finish(w: World, rid: int, name: str, i: int, kw: dict, node_self: t.Any, fixed: t.Optional[str] = None):
     oc = fixed if fixed is not None else w.outcome_token(rid, name, i)
     w.log.append(('end', rid, name, i, oc, w.now()))
+    reused = _instance_calls(node_self)
     if oc == 'ok':
+        if reused > 1:
+            # the engine creates a fresh node instance per invocation; state kept on `self` by an earlier attempt must not
+            # be visible (it would be in the in-memory modes but not through a process pool, which pickles the callable)
+            return prov(name, kw) + (('instance-reused', reused),)
         return prov(name, kw)
     if oc == 'none':
         return None
@@ -161,11 +166,21 @@ def _finish(w: World, rid: int, name: str, i: int, kw: dict, node_self: t.Any, f
     raise AssertionError(oc)
 
 
+def _instance_calls(node_self: t.Any) -> int:
+    n = getattr(node_self, '_mc_inst_calls', 0) + 1
+    try:
+        node_self._mc_inst_calls = n
+    except Exception:  # noqa: BLE001
+        pass
+    return n
+
+
 def pure_value(name: str, kw: t.Mapping, oc: str, node_self: t.Any, i: int = 0):
     """Body semantics without a World (real-pool conformance pass in child processes)."""
     kw = _norm_kw(kw)
+    reused = _instance_calls(node_self)
     if oc == 'ok':
-        return prov(name, kw)
+        return prov(name, kw) + ((('instance-reused', reused),) if reused > 1 else ())
     if oc == 'none':
         return None
     if oc == 'zero':
@@ -250,9 +265,13 @@ class FakeExecutor:
             _, rid, i, kw = _begin(name, getattr(fn, 'keywords', {}) or {})
             label = lab(rid, name, i)
 
-            def deliver(loop, fn=fn, f=f, ctx=(rid, name, i, kw)):
+            def deliver(loop, fn=fn, f=f, ctx=(rid, name, i, kw), kind=self.kind):
                 w.sync_ctx = ctx
                 try:
+                    if kind == 'process':
+                        # a process pool pickles the callable: the worker operates on a copy of the node instance
+                        import pickle
+                        fn = pickle.loads(pickle.dumps(fn))
                     res = fn(*args, **kwargs)
                 except BaseException as e:  # noqa: BLE001
                     w.sync_ctx = None
